@@ -138,6 +138,14 @@ def setup():
     return x
   global F, USER, USER2, USER1B, USER3, USER3B, USER4
   F, USER, USER2, USER1B, USER3, USER3B, USER4 = f, user, user2, user1b, user3, user3b, user4
+  # a module used through dynamic registration (H11)
+  import atexit, shutil, tempfile  # pylint: disable=import-outside-toplevel,multiple-imports
+  d = tempfile.mkdtemp(prefix='c18_')
+  with open(os.path.join(d, 'c18dyn.py'), 'w') as fh:
+    fh.write("def first(x=None, y='fy'):\n  return (x, y)\n\ndef second(x=None, z='sz'):\n  return (x, z)\n")
+  sys.path.insert(0, d)
+  atexit.register(lambda: shutil.rmtree(d, ignore_errors=True))
+  import c18dyn  # pylint: disable=import-outside-toplevel,unused-import
   sched.install_model_locks()
 
 
@@ -177,6 +185,20 @@ def b_probe_then_call():
   return ('f', F())
 
 
+DYN_CONFIG = ('from __gin__ import dynamic_registration\nimport c18dyn\nc18dyn.first.x = 1\nc18dyn.second.x = @c18dyn.first()\n'
+              's/c18dyn.second.x = 2\n')
+HCONFIG = {'H11_dynamic_registration_first_calls+reader': DYN_CONFIG}
+
+
+def b_dyn(name, scope=None):
+  def body():
+    import contextlib  # pylint: disable=import-outside-toplevel
+    import c18dyn  # pylint: disable=import-outside-toplevel
+    with (gin.config_scope(scope) if scope else contextlib.nullcontext()):
+      return ('f', gin.get_configurable(getattr(c18dyn, name))())
+  return body
+
+
 HARNESSES = {
     'H1_scoped_calls+reader': lambda: [b_scoped('sa'), b_scoped('sb'), b_reader],
     'H2_same_key_diff_args+reader': lambda: [b_f(), b_f(1), b_reader],
@@ -190,14 +212,16 @@ HARNESSES = {
     'H9_nested_singleton_constructors': lambda: [b_user('USER_O1'), b_user('USER_O2')],
     # the same with ten nested singletons per constructor (thorough tier only: long bodies)
     'H10_nested_singleton_constructors_wide': lambda: [b_user('USER_W1'), b_user('USER_W2')],
+    # dynamic registration (the reader also collects the imports the records need): first calls vs a reader
+    'H11_dynamic_registration_first_calls+reader': lambda: [b_dyn('second'), b_dyn('second', 's'), b_reader],
 }
 
 
 def bound(tier):
   if tier == 'quick':
-    return ('threads: 9 harnesses (2-3 threads; the wide nested-constructor harness H10 runs in the thorough tier only), all schedules with <=1 preemption at shared-state granularity plus <=3 (2 threads) / '
+    return ('threads: 10 harnesses (2-3 threads; the wide nested-constructor harness H10 runs in the thorough tier only), all schedules with <=1 preemption at shared-state granularity plus <=3 (2 threads) / '
             '<=2 (3 threads) preemptions at points inside the code that touches the store concerned; sequential depth 4')
-  return ('threads: 10 harnesses, all schedules with <=2 preemptions at shared-state granularity and <=1 at '
+  return ('threads: 11 harnesses, all schedules with <=2 preemptions at shared-state granularity and <=1 at '
           'all-gin-lines granularity; sequential depth 6')
 
 
@@ -231,7 +255,7 @@ def make_world(hname):
   def make():
     harness.hard_reset()
     COUNT.clear()
-    gin.parse_config(CONFIG)
+    gin.parse_config(HCONFIG.get(hname, CONFIG))
     return HARNESSES[hname]()
   return make
 
